@@ -119,6 +119,12 @@ class TupTerm(V):
     """tuple as one z3 datatype term (dict/set keys, elements of sorted key sequences)"""
     def __init__(self, z, tys): self.z, self.tys = z, tys
 
+class Unknown(V):
+    """value of a variable that is assigned inside a loop and whose value at the loop head (or after the loop) is not
+    determined by its type: any use is rejected (checker error), it may only be overwritten"""
+    def __init__(self, name): self.name = name
+    def __repr__(self): return 'Unknown(%s)' % self.name
+
 class Dual(V):
     """an attribute used by some callers as a callable and by others as a dict of callables
     (EAMPotential.electronDensityFunction): both views are carried"""
